@@ -221,6 +221,93 @@ def run(project: Project, rep, tier: str):
             else:
                 rep.refuted("LX-EDGE", fi, c, f"the residual bar pushed back, {ast.unparse(c.args[1])}, is not [birth, death]")
     rep.floor("LX-EDGE", 8)
+    # ---------------- LX-INSERT: the residual bar is pushed back in (birth asc, death desc) order — when other bars share
+    # its birth, the insert position moves right once per bar WITH THAT BIRTH whose death is larger; counting over any
+    # other population (all later bars) puts it behind bars born later and breaks the sweep's sortedness
+    from .common import enclosing_iterations
+    inserts = [c for c in ast.walk(f) if isinstance(c, ast.Call) and isinstance(c.func, ast.Attribute) and c.func.attr == "insert"
+               and len(c.args) == 2 and isinstance(c.args[0], ast.Name)]
+    n_ins = 0
+    for c in inserts:
+        idx_names = {c.args[0].id}
+        for _ in range(3):
+            for n in ast.walk(f):
+                if isinstance(n, ast.Assign) and len(n.targets) == 1 and isinstance(n.targets[0], ast.Name) \
+                        and n.targets[0].id in idx_names and isinstance(n.value, ast.Name):
+                    idx_names.add(n.value.id)
+        incs = [n for n in ast.walk(f) if isinstance(n, ast.AugAssign) and isinstance(n.target, ast.Name)
+                and n.target.id in idx_names and isinstance(n.op, ast.Add)]
+        for inc in incs:
+            conds = []
+            # tests of enclosing ifs
+            def enclosing_tests(root, node, acc):
+                for ch in ast.iter_child_nodes(root):
+                    if any(x is node for x in ast.walk(ch)):
+                        if isinstance(root, ast.If) and ch in root.body:
+                            acc.append(root.test)
+                        enclosing_tests(ch, node, acc)
+                        return
+            enclosing_tests(f, inc, conds)
+            pops = [it for _, it in enclosing_iterations(f, inc)]
+            gens = [g for g in ast.walk(inc.value) if isinstance(g, ast.comprehension)]
+            for g in gens:
+                conds += list(g.ifs)
+                pops.append(g.iter)
+            # only increments governed by a comparison of deaths are tie counts
+            def is_death_cmp(t):
+                return any(isinstance(x, ast.Compare) and any(isinstance(y, ast.Subscript) and isinstance(y.slice, ast.Constant)
+                                                               and y.slice.value == 1 for y in ast.walk(x)) for x in ast.walk(t))
+            if not any(is_death_cmp(t) for t in conds):
+                continue
+            n_ins += 1
+            pop_txt = []
+            birth_eq = False
+            # the element whose death is compared: `X[1]` -> X
+            elems = set()
+            for t in conds:
+                for x in ast.walk(t):
+                    if isinstance(x, ast.Compare):
+                        for y in [x.left] + x.comparators:
+                            if isinstance(y, ast.Subscript) and isinstance(y.slice, ast.Constant) and y.slice.value == 1:
+                                elems.add(ast.unparse(y.value))
+
+            def birth_equalities(tests, elem_texts):
+                for t in tests:
+                    for x in ast.walk(t):
+                        if isinstance(x, ast.Compare) and len(x.ops) == 1 and isinstance(x.ops[0], ast.Eq):
+                            sides = [x.left, x.comparators[0]]
+                            for y in sides:
+                                if isinstance(y, ast.Subscript) and isinstance(y.slice, ast.Constant) and y.slice.value == 0 \
+                                        and ast.unparse(y.value) in elem_texts and any(isinstance(z, ast.Name) for z in sides):
+                                    return True
+                return False
+            # (a) a test on the same element next to the death comparison
+            if birth_equalities(conds, elems):
+                birth_eq = True
+            for pexp in pops:
+                e = expand_locals(f, pexp)
+                pop_txt.append(ast.unparse(e)[:60])
+                # (b) the population is itself filtered by birth: [x for x in A if x[0] == b']
+                for x in ast.walk(e):
+                    if isinstance(x, (ast.ListComp, ast.GeneratorExp)) and len(x.generators) == 1 \
+                            and isinstance(x.generators[0].target, ast.Name) and ast.unparse(x.elt) == x.generators[0].target.id:
+                        if birth_equalities(x.generators[0].ifs, {x.generators[0].target.id}):
+                            birth_eq = True
+            if birth_eq:
+                rep.discharged("LX-INSERT", fi, inc, "the insert position advances only past bars with the same birth and a "
+                                                     "larger death: the worklist stays sorted by (birth, −death)")
+            elif pops:
+                rep.refuted("LX-INSERT", fi, inc,
+                            f"the insert position of the residual bar advances past every bar of `{pop_txt[-1]}` with a larger "
+                            f"death, whatever its birth: the bar lands behind bars born later, the worklist is no longer sorted "
+                            f"by birth and a deeper landscape function starts at the wrong bar",
+                            construct=f"{fi.qualname}: tie count over {norm_construct(f, pops[-1])}",
+                            failing_input="[(0,2),(1,3),(1,5),(2,3)]: depth 3 is zero on (1,2) instead of a tent of height 0.5")
+            else:
+                rep.unmodelled("LX-INSERT", fi, inc, "population of the tie count not recognised")
+    if inserts and not n_ins:
+        rep.unmodelled("LX-INSERT", fi, inserts[0], "how the insert position of the residual bar handles equal births was not "
+                                                    "recognised")
     # ---------------- LX-SCALE: comparisons between bar end-points are exact (scale-free)
     from ..core import facets
     n_cmp = 0
@@ -338,7 +425,7 @@ def run(project: Project, rep, tier: str):
             rep.discharged("LX-DEG", fi, n, "trailing infinite bar is detected on the death column")
         else:
             rep.refuted("LX-DEG", fi, n, f"the infinite-bar test `{ast.unparse(t)}` does not look at the death column")
-    for rn, n in (("LX-COPY", 1), ("LX-SORT", 1), ("LX-ITER", 1), ("LX-DEG", 2), ("LX-NOCOPY", 1)):
+    for rn, n in (("LX-COPY", 1), ("LX-SORT", 1), ("LX-ITER", 1), ("LX-DEG", 2), ("LX-NOCOPY", 1), ("LX-INSERT", 1)):
         rep.floor(rn, n)
 
 
